@@ -86,6 +86,8 @@ PkceFaultScenarios(store) ==
     Scn("pkce_wrong", CfgStore(store), <<AuthzPkce>>, <<RedeemV(1, "wrong")>>, <<RedeemV(1, "none"), RedeemV(1, "right")>>) }
 ScnPkceFault == PkceFaultScenarios("mem") \cup PkceFaultScenarios("tx")
 ScnFaultTx == FaultScenarios("tx")
+(* C04 under storage failures: rotation and reuse handling with one failing storage call (a missing row included) *)
+ScnReuseFault == {s \in FaultScenarios("tx") \cup FaultScenarios("mem") : s.name \in {"refresh", "refresh_reuse", "redeem_replay"}}
 ScnFaultMem == FaultScenarios("mem")
 
 (* C19: two or three requests in flight on overlapping credentials, reference store *)
